@@ -99,6 +99,16 @@ class Pristine:
             self.p = None
 
 
+_PRISTINE = [None, None]
+
+
+def _shared_pristine():
+    """one pristine worker per process, reused by every scenario/task run in that process"""
+    if _PRISTINE[0] is None or _PRISTINE[1] != os.getpid():
+        _PRISTINE[0], _PRISTINE[1] = Pristine(), os.getpid()
+    return _PRISTINE[0]
+
+
 # ------------------------------------------------------------------------------------------- known findings
 def load_known():
     try:
@@ -112,11 +122,12 @@ def load_known():
 # ------------------------------------------------------------------------------------------- scenario / ctx
 class Scenario:
     def __init__(self, name, path, bounds=None, domains=(), frontier=5, replay_cap=150, must_reach=("assert",),
-                 engine_opts=None, workers=16, assumptions=(), prepare=None):
+                 engine_opts=None, workers=16, assumptions=(), prepare=None, path_budget=24):
         self.name, self.path, self.bounds = name, path, dict(bounds or {})
         self.domains, self.frontier, self.replay_cap = tuple(domains), frontier, replay_cap
         self.must_reach, self.engine_opts, self.workers = tuple(must_reach), dict(engine_opts or {}), workers
         self.assumptions = list(assumptions)
+        self.path_budget = path_budget
         self.prepare = prepare       # optional callable run once in the parent after injection (returns extra state)
 
 
@@ -132,7 +143,7 @@ class Ctx:
         self.unconfirmed = []     # {"what","w","relaxed","error"}
         self.mismatches = []
         self.replays_ok = 0
-        self.pristine = Pristine()
+        self.pristine = _shared_pristine()
         self.rng = random.Random(seed)
         self.witness = None
         self.obs = None
@@ -232,7 +243,6 @@ class Ctx:
                     self.c["replay_mismatch"] += 1
 
     def export(self):
-        self.pristine.close()
         return dict(c=dict(self.c), samples=self.samples, confirmed=self.confirmed, unconfirmed=self.unconfirmed,
                     mismatches=self.mismatches, replays_ok=self.replays_ok, extra=self.extra)
 
@@ -281,8 +291,9 @@ def _make_engine(scen):
     return eng
 
 
-def _explore(scen, prop, seed, known, stop_flag, roots, frontier_depth=None):
+def _explore(scen, prop, seed, known, stop_flag, roots, frontier_depth=None, path_budget=None):
     eng = _make_engine(scen)
+    eng.path_budget = path_budget
     ctx = Ctx(prop, scen, seed, known, stop_flag)
     for hook in _JOB.get("engine_hooks", []):
         hook(eng)
@@ -304,15 +315,17 @@ def _explore(scen, prop, seed, known, stop_flag, roots, frontier_depth=None):
     out["stats"] = dict(eng.stats)
     out["limits"] = list(eng.limits)
     out["frontier"] = eng.frontier
+    out["leftover"] = eng.leftover
     out["fault"] = fault
     out["funcs"] = sorted(_FUNCS)
     return out
 
 
-def _worker(i):
+def _worker(args):
+    i, roots = args
     j = _JOB
     _monitor_reset()
-    return _explore(j["scen"], j["prop"], j["seed"] + 1 + i, j["known"], j["stop"], j["chunks"][i])
+    return _explore(j["scen"], j["prop"], j["seed"] + 1 + i, j["known"], j["stop"], roots, path_budget=j["budget"])
 
 
 def run_scenario(scen, prop, seed, known, engine_hooks=()):
@@ -322,14 +335,38 @@ def run_scenario(scen, prop, seed, known, engine_hooks=()):
     first = _explore(scen, prop, seed, known, stop, None, frontier_depth=scen.frontier if scen.workers > 1 else None)
     results = [first]
     roots = first.pop("frontier")
+    first.pop("leftover", None)
     if roots and not first["fault"]:
-        nw = min(scen.workers, len(roots))
-        _JOB["chunks"] = [roots[i::nw] for i in range(nw)]
+        nw = scen.workers
+        _JOB["budget"] = scen.path_budget
+        if _PRISTINE[0] is not None:
+            _PRISTINE[0].close()              # children must not share the parent's pipe
+            _PRISTINE[0] = None
+        queue = collections.deque([r] for r in roots)
         ctx = mp.get_context("fork")
+        ntask = 0
         with ctx.Pool(nw) as pool:
-            results += pool.map(_worker, range(nw))
+            inflight = []
+            while queue or inflight:
+                while queue and len(inflight) < nw:
+                    # hand out small batches while workers are idle, larger ones when the queue is long
+                    take = max(1, min(len(queue) // (2 * nw), 8))
+                    batch = [x for _ in range(take) for x in queue.popleft()]
+                    ntask += 1
+                    inflight.append(pool.apply_async(_worker, ((ntask, batch),)))
+                done = [r for r in inflight if r.ready()]
+                if not done:
+                    time.sleep(0.005)
+                    continue
+                for r in done:
+                    inflight.remove(r)
+                    res = r.get()
+                    for lo in res.pop("leftover", []):
+                        queue.append([lo])
+                    results.append(res)
     for r in results:
         r.pop("frontier", None)
+        r.pop("leftover", None)
     return merge(scen, results, time.time() - t0, len(roots))
 
 
